@@ -40,7 +40,7 @@ type SpzFile struct {
 	Deg       int      `json:"deg"`
 	FB        int      `json:"fb"`
 	Flags     int      `json:"flags"`
-	Container string   `json:"container"`      // "stored" (hand-written gzip, stored deflate block) | "deflate" (compress/gzip)
+	Container string   `json:"container"`      // "stored" (hand-written gzip, stored deflate block) | "deflate" (compress/gzip) | "members" (three stored gzip members)
 	Recs      []string `json:"recs,omitempty"` // hex of each record (small scopes)
 	Family    string   `json:"family"`
 	Gen       string   `json:"gen,omitempty"`    // generated records instead of Recs: "ladder" | "half-all"
@@ -218,6 +218,14 @@ func (k *checker) spzCase(f SpzFile, scope string) {
 	var data []byte
 	if f.Container == "deflate" {
 		data = gzipDeflate(raw)
+	} else if f.Container == "members" {
+		// a gzip file is a series of members (RFC 1952): header | first half of the body | the rest
+		h := 16
+		if h > len(raw) {
+			h = len(raw)
+		}
+		mid := h + (len(raw)-h)/2
+		data = append(append(gzipStored(raw[:h]), gzipStored(raw[h:mid])...), gzipStored(raw[mid:])...)
 	} else {
 		data = gzipStored(raw)
 	}
@@ -407,7 +415,7 @@ func (k *checker) runSpz() {
 	c.Bound("spz.sh_degree", "0..3")
 	c.Bound("spz.fractional_bits", fbs)
 	c.Bound("spz.flags", flagsSet)
-	c.Bound("spz.byte_patterns", fmt.Sprintf("%d background fills x {stored,deflate} container; all 256 values at every byte offset of every record; all 4^3 combinations of {00,7F,80,FF} in every 24-bit coordinate of every record", nBase))
+	c.Bound("spz.byte_patterns", fmt.Sprintf("%d background fills x {stored, deflate, three-gzip-members} container; all 256 values at every byte offset of every record; all 4^3 combinations of {00,7F,80,FF} in every 24-bit coordinate of every record", nBase))
 	boundary := []byte{0x00, 0x7F, 0x80, 0xFF}
 	for _, version := range []int{1, 2} {
 		for n := 0; n <= maxN; n++ {
@@ -419,7 +427,7 @@ func (k *checker) runSpz() {
 						// background fills, both containers
 						if k.mine() {
 							for p := 0; p < nBase; p++ {
-								for _, cont := range []string{"stored", "deflate"} {
+								for _, cont := range []string{"stored", "deflate", "members"} {
 									for mode := range readerModes {
 										g := f
 										g.Container, g.Family, g.Recs, g.Reader = cont, "fill", hexRecs(baseRecs(p, version, deg, n)), mode
